@@ -25,6 +25,7 @@ package impl
 //@   ensures [event] seq(Channels.Disconnected) && called(Channels.Disconnected, _, chid, err)
 
 //@ func (*impl.manager).OnChannelCompleted {C01,C03}
+//@   acquires {C20} tracing.SpansIndex.spansLk
 //@   ensures [unknown-channel] ret(GetByID, 1) != nil ==> untouched && result == ret(GetByID, 1)
 //@   ensures [error] completeErr != nil ==> never(SendMessage) && never(Channels.Complete) &&
 //@       never(Channels.BeginFinalizing) && never(Channels.FinishTransfer) && only(GetByID, Channels.Error)
@@ -103,6 +104,7 @@ package impl
 //@       (!result.Accepted ? datatransfer.ErrRejected : (stayPaused ? datatransfer.ErrPause : nil)))
 
 //@ func (*impl.manager).acceptRequest {C04,C18,C05}
+//@   acquires {C20} channels.progressCache.lk, graphsync.Transport.dtChannelsLk, graphsync.dtChannel.optionsLk, registry.Registry.registryLk, transportoptions.TransportOptions.optionsLk
 //@   requires incoming != nil
 //@   after Registry.Processor [registry-typed] $0 == m.validatedTypes && $r1 ==> implements($r0, datatransfer.RequestValidator)
 //@   after Registry.Processor [configurer-typed] $0 == m.transportConfigurers && $r1 ==> dyntype_is($r0, datatransfer.TransportConfigurer) && $r0.(datatransfer.TransportConfigurer) != nil
@@ -124,6 +126,7 @@ package impl
 //@       all(manager.recordAcceptedValidationEvents, $2 == ret(RequestValidator.Validate*, 0))
 
 //@ func (*impl.manager).receiveNewRequest {C04}
+//@   acquires {C20} channels.progressCache.lk, graphsync.Transport.dtChannelsLk, graphsync.dtChannel.optionsLk, registry.Registry.registryLk, transportoptions.TransportOptions.optionsLk
 //@   requires incoming != nil
 //@   ensures [validated] seq(manager.acceptRequest) && called(manager.acceptRequest, _, chid, incoming)
 //@   ensures [reply] result0 != nil ==> result0.IsNew() && !result0.IsRequest() && result0.TransferID() == incoming.TransferID() &&
@@ -142,6 +145,7 @@ package impl
 //@   ensures [nothing-else] only(Channels.NewVoucherResult, Channels.Error)
 
 //@ func (*impl.manager).recordAcceptedValidationEvents {C08,C04,C19,C11}
+//@   acquires {C20} channels.progressCache.lk
 //@   requires chst != nil
 //@   ensures [only] only(Channels.NewVoucherResult, Channels.SetDataLimit, Channels.SetRequiresFinalization, Channels.PauseResponder, Channels.ResumeResponder)
 //@   ensures [same-channel] all(Channels.NewVoucherResult, $1 == chst.ChannelID()) && all(Channels.SetDataLimit, $1 == chst.ChannelID()) &&
@@ -159,6 +163,7 @@ package impl
 //@   ensures [pause-last] calls(Channels.PauseResponder) + calls(Channels.ResumeResponder) == 1 ==> (last(Channels.PauseResponder) || last(Channels.ResumeResponder))
 
 //@ func (*impl.manager).validateRestart {C04,C10}
+//@   acquires {C20} registry.Registry.registryLk
 //@   requires chst != nil
 //@   after Registry.Processor [registry-typed] $0 == m.validatedTypes && $r1 ==> implements($r0, datatransfer.RequestValidator)
 //@   ensures [unregistered] !ret(Registry.Processor, 1) ==> err != nil && !result0.Accepted && untouched
@@ -180,6 +185,7 @@ package impl
 //@   ensures [resumed] !request.IsPaused() && err == nil ==> calls(GetByID) == 1 && !ret(GetByID, 0).SelfPaused()
 
 //@ func (*impl.manager).restartRequest {C04,C05,C10,C02}
+//@   acquires {C20} channels.progressCache.lk, graphsync.Transport.dtChannelsLk, graphsync.dtChannel.optionsLk, registry.Registry.registryLk, transportoptions.TransportOptions.optionsLk
 //@   requires incoming != nil
 //@   after Registry.Processor [configurer-typed] $0 == m.transportConfigurers && $r1 ==> dyntype_is($r0, datatransfer.TransportConfigurer) && $r0.(datatransfer.TransportConfigurer) != nil
 //@   ensures [initiator-refused] m.peerID == chid.Initiator ==> err != nil && untouched && !result1.Accepted
@@ -200,6 +206,7 @@ package impl
 //@       before(Channels.Restart, TransportOptions.ApplyOptions) && before(Channels.Restart, DataTransferNetwork.Protect)
 
 //@ func (*impl.manager).receiveRestartRequest {C04,C10}
+//@   acquires {C20} channels.progressCache.lk, graphsync.Transport.dtChannelsLk, graphsync.dtChannel.optionsLk, registry.Registry.registryLk, transportoptions.TransportOptions.optionsLk
 //@   requires incoming != nil
 //@   ensures [validated] seq(manager.restartRequest) && called(manager.restartRequest, _, chid, incoming)
 //@   ensures [reply] result0 != nil ==> result0.IsRestart() && !result0.IsRequest() && result0.TransferID() == incoming.TransferID() &&
@@ -209,6 +216,7 @@ package impl
 //@       (!ret(manager.restartRequest, 1).Accepted ? datatransfer.ErrRejected : (ret(manager.restartRequest, 1).ForcePause ? datatransfer.ErrPause : nil)))
 
 //@ func (*impl.manager).OnRequestReceived {C04,C05,C09}
+//@   acquires {C20} channels.progressCache.lk, graphsync.Transport.dtChannelsLk, graphsync.dtChannel.lk, graphsync.dtChannel.optionsLk, graphsync.requestIDToChannelIDMap.lk, registry.Registry.registryLk, transportoptions.TransportOptions.optionsLk
 //@   requires request != nil
 //@   ensures [restart] request.IsRestart() ==> seq(manager.receiveRestartRequest) && called(manager.receiveRestartRequest, _, chid, request)
 //@   ensures [new] !request.IsRestart() && request.IsNew() ==> seq(manager.receiveNewRequest) && called(manager.receiveNewRequest, _, chid, request)
@@ -244,6 +252,7 @@ package impl
 //@       (channel.ChannelID().Initiator == m.peerID ? ManagerPeerCreatePush : ManagerPeerReceivePush))
 
 //@ func (*impl.manager).openPushRestartChannel {C10,C05}
+//@   acquires {C20} channelmonitor.Monitor.lk, channelmonitor.monitoredChannel.shutdownLk, graphsync.Transport.dtChannelsLk, graphsync.dtChannel.optionsLk, registry.Registry.registryLk, transportoptions.TransportOptions.optionsLk
 //@   requires channel != nil
 //@   after Registry.Processor [configurer-typed] $0 == m.transportConfigurers && $r1 ==> dyntype_is($r0, datatransfer.TransportConfigurer) && $r0.(datatransfer.TransportConfigurer) != nil
 //@   ensures [never-creates] never(Channels.CreateNew) && never(Channels.Open) && never(Transport.OpenChannel)
@@ -255,6 +264,7 @@ package impl
 //@   ensures [monitored] calls(DataTransferNetwork.SendMessage) == 1 ==> before(Monitor.AddPushChannel, DataTransferNetwork.SendMessage) && called(Monitor.AddPushChannel, _, channel.ChannelID())
 
 //@ func (*impl.manager).openPullRestartChannel {C10,C05}
+//@   acquires {C20} channelmonitor.Monitor.lk, channelmonitor.monitoredChannel.shutdownLk, graphsync.Transport.dtChannelsLk, graphsync.dtChannel.lk, graphsync.dtChannel.optionsLk, registry.Registry.registryLk, transportoptions.TransportOptions.optionsLk
 //@   requires channel != nil
 //@   after Registry.Processor [configurer-typed] $0 == m.transportConfigurers && $r1 ==> dyntype_is($r0, datatransfer.TransportConfigurer) && $r0.(datatransfer.TransportConfigurer) != nil
 //@   ensures [never-creates] never(Channels.CreateNew) && never(Channels.Open) && never(DataTransferNetwork.SendMessage)
@@ -266,6 +276,7 @@ package impl
 //@   ensures [monitored] calls(Transport.OpenChannel) == 1 ==> before(Monitor.AddPullChannel, Transport.OpenChannel) && called(Monitor.AddPullChannel, _, channel.ChannelID())
 
 //@ func (*impl.manager).restartManagerPeerReceivePush {C10,C04}
+//@   acquires {C20} registry.Registry.registryLk
 //@   requires channel != nil
 //@   ensures [revalidates-first] first(manager.validateRestart, $1 == channel)
 //@   ensures [rejected] ret(manager.validateRestart, 1) != nil || !ret(manager.validateRestart, 0).Accepted ==> seq(manager.validateRestart) && result != nil
@@ -273,6 +284,7 @@ package impl
 //@       $3.(datatransfer.Request).IsRestartExistingChannelRequest() && $3.(datatransfer.Request).RestartChannelId().0 == channel.ChannelID())
 //@   ensures [only] only(manager.validateRestart, DataTransferNetwork.SendMessage) && calls(DataTransferNetwork.SendMessage) <= 1
 //@ func (*impl.manager).restartManagerPeerReceivePull {C10,C04}
+//@   acquires {C20} registry.Registry.registryLk
 //@   requires channel != nil
 //@   ensures [revalidates-first] first(manager.validateRestart, $1 == channel)
 //@   ensures [rejected] ret(manager.validateRestart, 1) != nil || !ret(manager.validateRestart, 0).Accepted ==> seq(manager.validateRestart) && result != nil
@@ -284,6 +296,8 @@ package impl
 // impl.go
 
 //@ func (*impl.manager).SendVoucher {C05,C19}
+//@   refines dyn.Subscriber -- may be called from inside a subscriber callback (C20)
+//@   acquires {C20} tracing.SpansIndex.spansLk
 //@   ensures [unknown-channel] ret(GetByID, 1) != nil ==> untouched && result != nil
 //@   ensures [role] channelID.Initiator != m.peerID ==> result != nil && untouched
 //@   ensures [message] all(DataTransferNetwork.SendMessage, $2 == ret(GetByID, 0).OtherPeer() && $3.IsRequest() && $3.(datatransfer.Request).IsVoucher() &&
@@ -294,6 +308,8 @@ package impl
 //@   ensures [recorded] result == nil ==> calls(Channels.NewVoucher) == 1 && calls(DataTransferNetwork.SendMessage) == 1
 
 //@ func (*impl.manager).SendVoucherResult {C05,C19}
+//@   refines dyn.Subscriber -- may be called from inside a subscriber callback (C20)
+//@   acquires {C20} tracing.SpansIndex.spansLk
 //@   ensures [unknown-channel] ret(GetByID, 1) != nil ==> untouched && result != nil
 //@   ensures [role] channelID.Initiator == m.peerID ==> result != nil && untouched
 //@   ensures [message] all(DataTransferNetwork.SendMessage, $2 == ret(GetByID, 0).OtherPeer() && !$3.IsRequest() && $3.TransferID() == channelID.ID &&
@@ -307,6 +323,7 @@ package impl
 //@   ensures [recorded] result == nil ==> calls(Channels.NewVoucherResult) == 1 && calls(DataTransferNetwork.SendMessage) == 1
 
 //@ func (*impl.manager).updateValidationStatus {C05,C04,C08}
+//@   acquires {C20} channels.progressCache.lk, graphsync.Transport.dtChannelsLk, graphsync.dtChannel.lk
 //@   ensures [role] chid.Initiator == m.peerID ==> result0 != nil && untouched
 //@   ensures [flow] chid.Initiator != m.peerID ==> first(manager.processValidationUpdate, $2 == chid && $3 == result) &&
 //@       only(manager.processValidationUpdate, manager.handleTransportUpdate) &&
@@ -318,6 +335,7 @@ package impl
 //@       seq(manager.processValidationUpdate, manager.handleTransportUpdate) && result0 == ret(manager.handleTransportUpdate, 0)
 
 //@ func (*impl.manager).processValidationUpdate {C04,C08}
+//@   acquires {C20} channels.progressCache.lk
 //@   ensures [unknown-channel] ret(GetByID, 1) != nil ==> untouched && err != nil && result0 == nil && result1 == nil
 //@   ensures [records] ret(GetByID, 1) == nil ==> (result.Accepted ? first(manager.recordAcceptedValidationEvents, $1 == ret(GetByID, 0) && $2 == result)
 //@                                                            : first(manager.recordRejectedValidationEvents, $1 == chid && $2 == result))
@@ -328,6 +346,7 @@ package impl
 //@   ensures [only] only(GetByID, manager.recordAcceptedValidationEvents, manager.recordRejectedValidationEvents)
 
 //@ func (*impl.manager).handleTransportUpdate {C04,C08,C11}
+//@   acquires {C20} graphsync.Transport.dtChannelsLk, graphsync.dtChannel.lk
 //@   requires [snapshot] chst != nil
 //@   ensures [resume] resultErr == nil && result.Accepted && !result.LeaveRequestPaused(chst) && chst.ResponderPaused() && !chst.Status().InFinalization() ==>
 //@       seq(PauseableTransport.ResumeChannel) && all(PauseableTransport.ResumeChannel, $2 == response && $3 == chst.ChannelID())
@@ -342,6 +361,8 @@ package impl
 //@       (response == nil || calls(DataTransferNetwork.SendMessage) == 1 && ret(DataTransferNetwork.SendMessage, 0) == nil) ==> calls(PauseableTransport.PauseChannel) == 1
 
 //@ func (*impl.manager).CloseDataTransferChannel {C09}
+//@   refines dyn.Subscriber -- may be called from inside a subscriber callback (C20)
+//@   acquires {C20} graphsync.Transport.dtChannelsLk, graphsync.dtChannel.lk, tracing.SpansIndex.spansLk
 //@   ensures [unknown-channel] ret(GetByID, 1) != nil ==> untouched && result != nil
 //@   ensures [closes] ret(GetByID, 1) == nil ==> seq(Transport.CloseChannel, CloseDataTransferChannel$1, Channels.Cancel) &&
 //@       called(Transport.CloseChannel, _, _, chid) && called(Channels.Cancel, _, chid)
@@ -356,6 +377,8 @@ package impl
 //@   ensures [only] only(DataTransferNetwork.SendMessage, manager.OnRequestDisconnected)
 
 //@ func (*impl.manager).CloseDataTransferChannelWithError {C09,C14}
+//@   refines dyn.Subscriber -- may be called from inside a subscriber callback (C20)
+//@   acquires {C20} graphsync.Transport.dtChannelsLk, graphsync.dtChannel.lk, tracing.SpansIndex.spansLk
 //@   ensures [unknown-channel] ret(GetByID, 1) != nil ==> untouched && result != nil
 //@   ensures [closes] ret(GetByID, 1) == nil ==> seq(Transport.CloseChannel, DataTransferNetwork.SendMessage, Channels.Error) &&
 //@       called(Transport.CloseChannel, _, _, chid) && all(Channels.Error, $1 == chid && $2 == cherr) &&
@@ -364,6 +387,8 @@ package impl
 //@   ensures [result] ret(GetByID, 1) == nil ==> calls(Channels.Error) == 1 && (result == nil) == (ret(Channels.Error, 0) == nil)
 
 //@ func (*impl.manager).PauseDataTransferChannel {C11}
+//@   refines dyn.Subscriber -- may be called from inside a subscriber callback (C20)
+//@   acquires {C20} graphsync.Transport.dtChannelsLk, graphsync.dtChannel.lk, tracing.SpansIndex.spansLk
 //@   ensures [order] first(PauseableTransport.PauseChannel, $2 == chid) &&
 //@       all(DataTransferNetwork.SendMessage, $2 == chid.OtherParty(m.peerID) && $3.IsUpdate() && $3.IsPaused() && $3.TransferID() == chid.ID &&
 //@           $3.IsRequest() == (chid.Initiator == m.peerID)) && calls(DataTransferNetwork.SendMessage) == 1
@@ -372,11 +397,14 @@ package impl
 //@       never(manager.pause) && last(manager.OnRequestDisconnected, $1 == chid) && result != nil
 
 //@ func (*impl.manager).ResumeDataTransferChannel {C11}
+//@   refines dyn.Subscriber -- may be called from inside a subscriber callback (C20)
+//@   acquires {C20} graphsync.Transport.dtChannelsLk, graphsync.dtChannel.lk, tracing.SpansIndex.spansLk
 //@   ensures [order] seq(PauseableTransport.ResumeChannel, manager.resume) &&
 //@       all(PauseableTransport.ResumeChannel, $3 == chid && $2.IsUpdate() && !$2.IsPaused() && $2.TransferID() == chid.ID && $2.IsRequest() == (chid.Initiator == m.peerID)) &&
 //@       called(manager.resume, _, chid)
 
 //@ func (*impl.manager).RestartDataTransferChannel {C02,C06,C10,C09}
+//@   acquires {C20} channelmonitor.Monitor.lk, channelmonitor.monitoredChannel.shutdownLk, graphsync.Transport.dtChannelsLk, graphsync.dtChannel.lk, graphsync.dtChannel.optionsLk, registry.Registry.registryLk, tracing.SpansIndex.spansLk, transportoptions.TransportOptions.optionsLk
 //@   ensures [unknown-channel] ret(GetByID, 1) != nil ==> untouched && result != nil
 //@   ensures [terminated] ret(GetByID, 1) == nil && channels.IsChannelTerminated(ret(GetByID, 0).Status()) ==> result == nil && untouched
 //@   ensures [cleaning-up] ret(GetByID, 1) == nil && !channels.IsChannelTerminated(ret(GetByID, 0).Status()) && channels.IsChannelCleaningUp(ret(GetByID, 0).Status()) ==>
@@ -392,6 +420,7 @@ package impl
 // environment.go, timecounter.go
 
 //@ func (*impl.channelEnvironment).CleanupChannel {C09}
+//@   acquires {C20} graphsync.Transport.dtChannelsLk, graphsync.dtChannel.lk, graphsync.dtChannel.optionsLk, graphsync.requestIDToChannelIDMap.lk, tracing.SpansIndex.spansLk, transportoptions.TransportOptions.optionsLk
 //@   ensures [chain] seq(Transport.CleanupChannel, SpansIndex.EndChannelSpan, TransportOptions.ClearOptions) &&
 //@       called(Transport.CleanupChannel, _, chid) && called(SpansIndex.EndChannelSpan, _, chid) && called(TransportOptions.ClearOptions, _, chid)
 //@ func (*impl.channelEnvironment).Unprotect {C09}
@@ -407,6 +436,7 @@ package impl
 // receiver.go
 
 //@ func (*impl.receiver).receiveRequest {C04,C05,C10,C11}
+//@   acquires {C20} channels.progressCache.lk, graphsync.Transport.dtChannelsLk, graphsync.dtChannel.lk, graphsync.dtChannel.optionsLk, graphsync.requestIDToChannelIDMap.lk, registry.Registry.registryLk, tracing.SpansIndex.spansLk, transportoptions.TransportOptions.optionsLk
 //@   requires incoming != nil
 //@   ensures [derived-id] first(manager.OnRequestReceived, $1 == datatransfer.ChannelID{Initiator: initiator, Responder: r.manager.peerID, ID: incoming.TransferID()} && $2 == incoming) &&
 //@       calls(manager.OnRequestReceived) == 1
@@ -430,6 +460,7 @@ package impl
 //@   ensures [no-close-when-ok] ret(manager.OnRequestReceived, 1) == nil ==> never(Transport.CloseChannel) && never(PauseableTransport.PauseChannel)
 
 //@ func (*impl.receiver).receiveResponse {C05,C11,C03}
+//@   acquires {C20} graphsync.Transport.dtChannelsLk, graphsync.dtChannel.lk, tracing.SpansIndex.spansLk
 //@   requires incoming != nil
 //@   ensures [derived-id] first(manager.OnResponseReceived, $1 == datatransfer.ChannelID{Initiator: r.manager.peerID, Responder: sender, ID: incoming.TransferID()} && $2 == incoming) &&
 //@       calls(manager.OnResponseReceived) == 1
@@ -440,6 +471,7 @@ package impl
 //@   ensures [ok] ret(manager.OnResponseReceived, 0) == nil ==> seq(manager.OnResponseReceived) && result == nil
 
 //@ func (*impl.receiver).ReceiveRestartExistingChannelRequest {C05,C02,C10}
+//@   acquires {C20} channelmonitor.Monitor.lk, channelmonitor.monitoredChannel.shutdownLk, graphsync.Transport.dtChannelsLk, graphsync.dtChannel.lk, graphsync.dtChannel.optionsLk, registry.Registry.registryLk, tracing.SpansIndex.spansLk, transportoptions.TransportOptions.optionsLk
 //@   requires incoming != nil
 //@   ensures [not-a-restart-request] incoming.RestartChannelId().1 != nil ==> untouched
 //@   ensures [guarded] calls(manager.openPushRestartChannel) + calls(manager.openPullRestartChannel) >= 1 ==>
@@ -455,6 +487,7 @@ package impl
 // events.go (data flow) and opening
 
 //@ func (*impl.manager).OnDataReceived {C07,C08}
+//@   acquires {C20} channels.blockIndexCache.lk, channels.progressCache.lk, tracing.SpansIndex.spansLk
 //@   requires [cid-links] link != nil && dyntype_is(link, cidlink.Link) -- configuration assumption: transports report cidlink.Link
 //@   ensures [forward] first(Channels.DataReceived, $1 == chid && $3 == size && $4 == index && $5 == unique) && calls(Channels.DataReceived) == 1
 //@   ensures [notify] ret(Channels.DataReceived, 0) == datatransfer.ErrPause ==> seq(Channels.DataReceived, DataTransferNetwork.SendMessage) &&
@@ -463,6 +496,7 @@ package impl
 //@   ensures [pause-result] ret(Channels.DataReceived, 0) == datatransfer.ErrPause && calls(DataTransferNetwork.SendMessage) == 1 && ret(DataTransferNetwork.SendMessage, 0) == nil ==> result == datatransfer.ErrPause
 
 //@ func (*impl.manager).OnDataQueued {C07,C08}
+//@   acquires {C20} channels.blockIndexCache.lk, channels.progressCache.lk, tracing.SpansIndex.spansLk
 //@   requires [cid-links] link != nil && dyntype_is(link, cidlink.Link) -- configuration assumption: transports report cidlink.Link
 //@   ensures [forward] seq(Channels.DataQueued) && all(Channels.DataQueued, $1 == chid && $3 == size && $4 == index && $5 == unique)
 //@   ensures [result] err == ret(Channels.DataQueued, 0)
@@ -470,6 +504,7 @@ package impl
 //@   ensures [no-message-otherwise] err != datatransfer.ErrPause ==> result0 == nil
 
 //@ func (*impl.manager).OnDataSent {C07}
+//@   acquires {C20} channels.blockIndexCache.lk, channels.progressCache.lk, tracing.SpansIndex.spansLk
 //@   requires [cid-links] link != nil && dyntype_is(link, cidlink.Link)
 //@   ensures [forward] seq(Channels.DataSent) && all(Channels.DataSent, $1 == chid && $3 == size && $4 == index && $5 == unique) && result == ret(Channels.DataSent, 0)
 
@@ -482,6 +517,7 @@ package impl
 //@       result0.IsPull() == isPull && result0.BaseCid() == baseCid)
 
 //@ func (*impl.manager).OpenPushDataChannel {C18,C17,C10}
+//@   acquires {C20} channelmonitor.Monitor.lk, channelmonitor.monitoredChannel.shutdownLk, channelsubscriptions.ChannelSubscriptions.subscriptionsLk, graphsync.Transport.dtChannelsLk, graphsync.dtChannel.optionsLk, registry.Registry.registryLk, tracing.SpansIndex.spansLk, transportoptions.TransportOptions.optionsLk
 //@   after Registry.Processor [configurer-typed] $0 == m.transportConfigurers && $r1 ==> dyntype_is($r0, datatransfer.TransportConfigurer) && $r0.(datatransfer.TransportConfigurer) != nil
 //@   ensures [one-id] calls(manager.newRequest) == 1 && first(manager.newRequest) && all(manager.newRequest, !$3)
 //@   ensures [same-id] all(Channels.CreateNew, $1 == m.peerID && $2 == ret(manager.newRequest, 0).TransferID() && $6 == m.peerID && $7 == m.peerID && $8 == requestTo && $3 == baseCid)
@@ -491,6 +527,7 @@ package impl
 //@   ensures [send-failure] calls(DataTransferNetwork.SendMessage) == 1 && ret(DataTransferNetwork.SendMessage, 0) != nil ==> err != nil && called(Channels.Error, _, ret(Channels.CreateNew, 0), _)
 
 //@ func (*impl.manager).OpenPullDataChannel {C18,C17,C10}
+//@   acquires {C20} channelmonitor.Monitor.lk, channelmonitor.monitoredChannel.shutdownLk, channelsubscriptions.ChannelSubscriptions.subscriptionsLk, graphsync.Transport.dtChannelsLk, graphsync.dtChannel.lk, graphsync.dtChannel.optionsLk, registry.Registry.registryLk, tracing.SpansIndex.spansLk, transportoptions.TransportOptions.optionsLk
 //@   after Registry.Processor [configurer-typed] $0 == m.transportConfigurers && $r1 ==> dyntype_is($r0, datatransfer.TransportConfigurer) && $r0.(datatransfer.TransportConfigurer) != nil
 //@   ensures [one-id] calls(manager.newRequest) == 1 && first(manager.newRequest) && all(manager.newRequest, $3)
 //@   ensures [same-id] all(Channels.CreateNew, $1 == m.peerID && $2 == ret(manager.newRequest, 0).TransferID() && $6 == m.peerID && $7 == requestTo && $8 == m.peerID && $3 == baseCid)
